@@ -370,6 +370,13 @@ func (g *Gen) HeaderFor(r *FnResult) string {
 					if len(c) > len(a) && strings.HasPrefix(c, a) {
 						if bn, ok := g.strLits[c[len(a):]]; ok && has(bn) {
 							fmt.Fprintf(&b, "(assert (= (Str_cat %s %s) %s))\n", g.strLits[a], bn, g.strLits[c])
+							// the same instance of associativity with an arbitrary tail: "word/" ++ ("media/" ++ x) = "word/media/" ++ x
+							// (a part name built as prefix + relationship target; a theorem of concatenation, triggered only by the nested term)
+							// Emitted for path prefixes only (both literals end in "/"): the prefix literals the header synthesises
+							// ("h", "http:", ...) would otherwise each bring an instance that only feeds the matcher.
+							if strings.HasSuffix(a, "/") && strings.HasSuffix(c, "/") {
+								fmt.Fprintf(&b, "(assert (forall ((x Str)) (! (= (Str_cat %s (Str_cat %s x)) (Str_cat %s x)) :pattern ((Str_cat %s (Str_cat %s x))))))\n", g.strLits[a], bn, g.strLits[c], g.strLits[a], bn)
+							}
 						}
 					}
 				}
